@@ -48,6 +48,12 @@ class RuleResult:
     def count(self, name, n):
         self.counts[name] = n
 
+    def undecided(self, what):
+        """The code has a shape the rule does not understand: no positive contradicting fact, so no alarm;
+        the clause is reported as not decided in the evidence (never as discharged)."""
+        self.obligations += 1
+        self.info.append("UNDECIDED: " + what)
+
 
 def load_json(path, default=None):
     try:
